@@ -661,6 +661,7 @@ def run_check(prop, obs, tier, seed, level_text="", assumptions=(), outside=(),
     known = [k for k in load_known() if k.get("property") == prop and not k.get("fixed")]
     violations, inconclusive, known_hits = [], [], []
     rep_root = os.path.join(VERIF, "replays")
+    fam_count = {}
     for r in results:
         r.ob_prop = prop
         if r.status == "violation":
@@ -673,6 +674,12 @@ def run_check(prop, obs, tier, seed, level_text="", assumptions=(), outside=(),
             if kf:
                 r.known = kf
                 known_hits.append(r)
+                continue
+            fam_count[r.ob.family] = fam_count.get(r.ob.family, 0) + 1
+            if fam_count[r.ob.family] > 2:
+                # same family already replayed twice: do not rebuild the native replay again
+                r.replay_dir, r.replayed, r.replay_txt = None, None, "not replayed (family already replayed)"
+                violations.append(r)
                 continue
             rdir = os.path.join(rep_root, "%s-%s" % (prop, re.sub(r"[^A-Za-z0-9_.-]", "_", r.ob.name)))
             shutil.rmtree(rdir, ignore_errors=True)
@@ -765,7 +772,7 @@ def run_check(prop, obs, tier, seed, level_text="", assumptions=(), outside=(),
         # one VIOLATION line per failing obligation family (first few)
         done = set()
         for r in violations:
-            if r.ob.family in done:
+            if r.ob.family in done or not r.replay_dir:
                 continue
             done.add(r.ob.family)
             log("VIOLATION property=%s replay=%s" % (prop, r.replay_dir))
